@@ -37,4 +37,5 @@ INVARIANT InvOr
 INVARIANT InvAnd
 INVARIANT InvUidSeq
 INVARIANT InvEquiv
+INVARIANT InvRewrite
 INVARIANT InvDev
